@@ -30,4 +30,11 @@ PROPS = {
              'distinct = distinct exhaustive op sequences',
         assumptions=['data-race freedom and atomicity rest on the mutex (fact F-lock) and the race detector, not on the Lean model'],
     ),
+    'C18': dict(
+        harness='sessiondiff', args=['-prop', 'C18'], ignore_ops=['sess allord'], shards=dict(quick=4, thorough=16), race=True,
+        rule='all 65536 counter states x 3 allocations; full 65535-allocation cycles from boundary start states; every store history of length 3 (quick) / 4 '
+             '(thorough) over 2 directions x 3 ids x {save,save-other,lookup,delete,all,id-less save} + reset, random long histories; a Go map per direction '
+             'as the property monitor; 2/4/16 concurrent allocators; distinct = distinct exhaustive histories and full cycles',
+        assumptions=['concurrent callers: atomicity rests on the mutex (fact F-lock); the thorough tier runs the harness under the race detector'],
+    ),
 }
